@@ -9,10 +9,10 @@ package main
 
 import (
 	"bytes"
-	"strings"
 	"encoding/hex"
 	"fmt"
 	"math/big"
+	"strings"
 
 	vc "verifcommon"
 
